@@ -109,3 +109,9 @@ check("C06", "exploration", "runtime monitoring under a controlled (baton-passin
       "Trusted: the scheduler's yield-point set (locks, transport calls, LINE events on the repository's code objects); interleavings inside a single bytecode line are not explored. "
       "K1 (known finding) is classified by mechanism through a wrapper on _AdbPacketStore.put; every other failure remains a violation.",
       "DESIGN.md section 4 C06, 2.5")
+check("C14", "exploration", "runtime monitoring under the controlled scheduler with line-level preemption (sys.monitoring LINE events local to _open); OPEN rule of the stream monitor at the device",
+      "Concurrent opens from 2-3 threads (tasks) are preempted at the individual source lines of the id allocation, with the counter pre-set around 0 and 2^32; streams are "
+      "kept open while others open. The device-side monitor checks every OPEN id for range and for collision with a live stream. The same OPEN rule is evaluated as a side "
+      "observation in every other check's workload.",
+      "Trusted: line granularity (preemption inside one source line, e.g. between the load and the store of `+=`, is not explored); the simulator's notion of a live stream.",
+      "DESIGN.md section 4 C14")
